@@ -7,6 +7,8 @@
 
 mod api;
 mod c06;
+mod c07;
+mod c13;
 mod fp;
 
 use mccore::{Bad, Meta, Run, Tier};
@@ -38,6 +40,8 @@ type ReplayFn = fn(&Value) -> Result<(), Bad>;
 fn table(id: &str) -> Option<(RunFn, MetaFn)> {
     Some(match id {
         "C06" => (c06::run, c06::meta),
+        "C07" => (c07::run, c07::meta),
+        "C13" => (c13::run, c13::meta),
         _ => return None,
     })
 }
@@ -45,6 +49,8 @@ fn replay_table(op: &str) -> Option<ReplayFn> {
     let pre = op.split('.').next().unwrap_or("");
     Some(match pre {
         "c06" => c06::replay,
+        "c07" => c07::replay,
+        "c13" => c13::replay,
         _ => return None,
     })
 }
